@@ -25,7 +25,7 @@ type zzListener struct {
 
 type zzC20 struct {
 	e  *zzConnEnv
-	ls [2]zzListener
+	ls [3]zzListener
 }
 
 func (s *zzC20) register(i int) {
@@ -114,6 +114,41 @@ func ZZ_C20_Listeners() {
 		case l.unsubBefore:
 			zzverif.Assert(l.calls == 0, "listener called although unsubscribed before the close")
 		case !l.unsubbed:
+			zzverif.Assert(l.calls == 1, "registered listener not called exactly once")
+			zzverif.Reach("notified")
+		}
+	}
+	zzverif.Reach("done")
+}
+
+// ZZ_C20_ListenerIds: three listeners on one connection with unsubscriptions in between: register A,
+// register B, unsubscribe a symbolic one of them, register C, optionally unsubscribe a symbolic live one,
+// close. Every listener that registered successfully and was not unsubscribed runs exactly once, an
+// unsubscribed one never (an unsubscribe must remove its own listener only). Added after seed
+// C20-r4m1 (listener ids derived from the current number of listeners collide after an unsubscribe).
+func ZZ_C20_ListenerIds() {
+	s := &zzC20{e: zzNewConn(false, nil, true)}
+	s.e.shaken.Set()
+	s.register(0)
+	s.register(1)
+	if zzverif.Bool() {
+		s.unsubscribe(zzverif.Choice(2))
+	}
+	s.register(2)
+	if zzverif.Bool() {
+		i := zzverif.Choice(3)
+		zzverif.Assume(!s.ls[i].unsubbed)
+		s.unsubscribe(i)
+	}
+	s.e.c.close()
+	zzverif.Assert(s.e.closed.set, "closed")
+	for i := range s.ls {
+		l := &s.ls[i]
+		zzverif.Assert(l.ok, "registration on an open connection refused")
+		zzverif.Assert(!l.early, "listener ran before the closed flag was observable")
+		if l.unsubbed {
+			zzverif.Assert(l.calls == 0, "listener called although unsubscribed before the close")
+		} else {
 			zzverif.Assert(l.calls == 1, "registered listener not called exactly once")
 			zzverif.Reach("notified")
 		}
